@@ -6,7 +6,28 @@ corresponding `*_current` obligation fail: a broken tie, handled by the checks l
 import os
 import re
 
-from .common import COQ, REPO
+import shutil
+import subprocess
+
+from .common import CACHE, COQ, ENV, HARNESS, REPO
+
+
+def run_rtscan():
+    """builds (first time / when its source changed) and runs the syn-based translator harness/rtscan on /repo"""
+    crate = os.path.join(HARNESS, "rtscan")
+    tdir = os.path.join(CACHE, "target_rtscan")
+    lock = os.path.join(REPO, "Cargo.lock")
+    if os.path.exists(lock):
+        shutil.copy(lock, os.path.join(crate, "Cargo.lock"))
+    env = dict(ENV)
+    env["CARGO_TARGET_DIR"] = tdir
+    b = subprocess.run("cargo build --offline -q", shell=True, cwd=crate, env=env, stdout=subprocess.PIPE, stderr=subprocess.STDOUT, timeout=1500)
+    if b.returncode != 0:
+        return None, ["rtscan does not build: " + b.stdout.decode(errors="replace")[-400:]]
+    r = subprocess.run([os.path.join(tdir, "debug", "rtscan"), REPO], stdout=subprocess.PIPE, stderr=subprocess.STDOUT, timeout=120)
+    if r.returncode != 0:
+        return None, ["rtscan failed: " + r.stdout.decode(errors="replace")[-400:]]
+    return r.stdout.decode(errors="replace").splitlines(), []
 
 
 def strip_comments(src):
@@ -31,7 +52,7 @@ def fn_body(src, name):
     return None
 
 
-def scan_convert():
+def scan_convert_regex():
     notes = []
     path = os.path.join(REPO, "truc_runtime", "src", "convert.rs")
     try:
@@ -109,8 +130,8 @@ def scan_flags():
     return f, notes
 
 
-def scan_data():
-    """T1: access kinds of the four primitives of RecordMaybeUninit"""
+def scan_data_regex():
+    """(superseded by rtscan) T1: access kinds of the four primitives of RecordMaybeUninit"""
     notes = []
     path = os.path.join(REPO, "truc_runtime", "src", "data.rs")
     prim = {}
@@ -133,6 +154,26 @@ def scan_data():
     return prim, notes
 
 
+def scan_runtime():
+    """T1: facts of truc_runtime/src/{data,convert}.rs through the syn-based translator"""
+    lines, notes = run_rtscan()
+    conv = dict(guard_size=False, guard_align=False, inc_before_call=False, free_on_failure=False, same_payload=False)
+    prim = {n: ("Unknown", "Unknown") for n in ("read", "write", "get", "get_mut")}
+    for l in lines or []:
+        w = l.split()
+        if not w:
+            continue
+        if w[0] == "note":
+            notes.append(l[5:][:300])
+        elif w[0] == "data" and len(w) == 4:
+            prim[w[1]] = (w[2].split("=")[1], w[3].split("=")[1])
+        elif w[0] == "convert":
+            for kv in w[1:]:
+                k, v = kv.split("=")
+                conv[k] = v == "1"
+    return conv, prim, notes
+
+
 def coq_bool(b):
     return "true" if b else "false"
 
@@ -140,9 +181,9 @@ def coq_bool(b):
 def write_current():
     d = os.path.join(COQ, "Current")
     os.makedirs(d, exist_ok=True)
-    conv, n1 = scan_convert()
+    conv, prim, n1 = scan_runtime()
     flags, n2 = scan_flags()
-    prim, n3 = scan_data()
+    n3 = []
     lines = ["(* GENERATED on every run by vlib/srcscan.py from the source text of /repo. Do not edit. *)",
              "From Truc.Model Require VecConv Exec.", "Import VecConv.", ""]
     for n in n1 + n2 + n3:
